@@ -7,7 +7,13 @@ close at any position) vs the extracted model (main driver); aliasing sessions (
 with-blocks, chunk formats by object identity) vs the extracted aliasing model (bin/lasmodel_c04): outcomes, file bytes and the
 caller's world after the session.
 Search: chunked bytes vs one-shot bytes OF THE HEADER AS IT WAS AT OPEN on the implementation; refusals leave the file unchanged;
-a with-block left by an exception leaves the file of the accepted calls alone; no writer operation modifies the caller's objects."""
+a with-block left by an exception leaves the file of the accepted calls alone; no writer operation modifies the caller's objects.
+Round 5: PLACED sessions (sessions.gen_stat_session: chunks lying exactly on the origin / on one axis / all-equal, boxes that do not
+contain the origin, the extremum only in the first / a middle / the last chunk, chunks whose return numbers are all zero or all one
+value) go through the model and the oracle like the random ones, with a second one-shot reference (LasData.write); SIZE sessions
+(sessions.size_session: one write_points call of more than 2^20 points, lengths that are exact multiples of 65536, strided records)
+are judged by the oracle alone: every partition of the same points gives the same bytes, and the file says how many points it holds."""
+import io
 import shutil
 import tempfile
 
@@ -135,10 +141,68 @@ def sessions_for(ctx):
     return _SESS
 
 
+_STAT = None
+_SIZE = None
+
+
+def stat_sessions_for(ctx):
+    """class (c): sessions whose chunks are placed on special values of the statistics (sessions.gen_stat_session)"""
+    global _STAT
+    if _STAT is None:
+        alias_sessions_for(ctx)
+        _STAT = []
+        for _ in range(ctx.n(300, 4000)):
+            s = sessions.gen_stat_session(ctx.rng, ctx.thorough())
+            s["via"] = ctx.rng.choice(["class", "open"])
+            s["note"]["writer"] = "laspy.LasWriter(dest, h, closefd=False)" if s["via"] == "class" else "laspy.open(dest, mode='w', header=h, closefd=False)"
+            s["run"] = sessions.run_writer_session(s, via=s["via"])
+            _STAT.append(s)
+    return _STAT
+
+
+def size_sessions_for(ctx):
+    """class (b): the same points in one call and in chunks, around the thresholds 65536 / 2^20 / 2^21"""
+    global _SIZE
+    if _SIZE is None:
+        stat_sessions_for(ctx)
+        rng = ctx.rng
+        B = 1 << 20
+        plan = [(B + rng.choice([1, 2, 3, 5, 7]), "1.2", 0, 1)]                       # every run: one call of just over 2^20 points, format 0 (~21 MB)
+        if rng.random() < 0.5:
+            plan.append((rng.choice([B, B - 1, B + 65536, B + 65535]), rng.choice(lasio.VERSIONS), 0, 1))
+        for _ in range(ctx.n(3, 12)):
+            v = rng.choice(lasio.VERSIONS)
+            f = rng.choice([x for x in lasio.COMPAT[v] if x in (0, 1, 2, 3, 6)])
+            plan.append((rng.choice([65535, 65536, 65537, 131072, 131073, 196608, 3 * 65536 + 1]), v, f, rng.choice([1, 1, 2, -1, 3])))
+        if ctx.thorough():
+            plan += [(2 * B + rng.choice([1, 2, 9]), "1.4", 6, 1), (2 * B, "1.3", 1, 1), (B, "1.2", 0, 1), (B + 1, "1.4", 0, 2), (B + 65536, "1.1", 1, -1),
+                     (B + rng.randrange(1, 65536), rng.choice(lasio.VERSIONS), 0, 1), (16 * 65536, "1.4", 7, 2), (17 * 65536, "1.2", 3, 3)]
+        _SIZE = [sessions.size_session(rng, n, v, f, nparts=ctx.n(2, 4), stride=st) for n, v, f, st in plan]
+    return _SIZE
+
+
+def one_shot_lasdata(header, point_bytes, evl):
+    """the file LasData.write produces for the whole sequence (the other one-shot entry point)"""
+    import copy
+    import laspy
+    h = copy.deepcopy(header)
+    n = len(point_bytes) // h.point_format.size
+    rec = laspy.PackedPointRecord.from_buffer(bytearray(point_bytes), h.point_format, count=n) if n else laspy.PackedPointRecord.zeros(0, h.point_format)
+    las = laspy.LasData(h, points=rec)
+    if h.version.minor >= 4 and evl is not None:
+        las.evlrs = evl
+    b = io.BytesIO()
+    las.write(b)
+    return b.getvalue()
+
+
 def describe(s):
-    return {"version": str(s["header"].version), "format": s["header"].point_format.id,
-            "extra_dims": len(list(s["header"].point_format.extra_dimensions)),
-            "ops": [(o[0] + (str(len(o[1])) + ("" if o[0] != "P" or o[2] else "!fmt")) if o[0] != "C" else "C") for o in s["ops"]]}
+    d = {"version": str(s["header"].version), "format": s["header"].point_format.id,
+         "extra_dims": len(list(s["header"].point_format.extra_dimensions)),
+         "ops": [(o[0] + (str(len(o[1])) + ("" if o[0] != "P" or o[2] else "!fmt")) if o[0] != "C" else "C") for o in s["ops"]]}
+    if "note" in s:
+        d["placed"] = s["note"]
+    return d
 
 
 def correspond(ctx):
@@ -146,7 +210,12 @@ def correspond(ctx):
                          "1..12 ops over {write_points(chunk of 0/1/2/5/17/40 records, random/extreme bytes), write_points(foreign format: "
                          "other id or same id with other extra dims), write_evlrs(0..2 records), close}, always closed at the end, "
                          "closefd=False. non-trivial = at least two non-empty chunks or a refused op; distinct by the op shape and header")
-    ss_all = sessions_for(ctx)
+    ctx.extra["rule"] += (" || PLACED sessions: the scaling of every axis maps some stored integer to exactly 0.0; chunks of 1/2/5/17 records placed by a "
+                          "plan over {origin, axis0/1/2, all-equal, box+ / box- (not containing the origin), around, extreme-hi/lo, empty} such as (origin, box+), "
+                          "(box+, origin, box-), (around, extreme-hi, around); return numbers of a chunk as-is / all zero / all one value / all highest / mixed; "
+                          "0-d records; || SIZE sessions (oracle only): one call of 2^20+k points (format 0) in every run, lengths 65535..3*65536+1 incl. strided "
+                          "one-shot records, thorough: 2^21+k, exact multiples of 65536 with strides 2 / 3 / -1; each against 2-4 partitions")
+    ss_all = sessions_for(ctx) + stat_sessions_for(ctx)
     # sessions with a differently scaled scale-aware chunk: the rescaling rule is C11's; they are checked by the oracle only
     ss = [s for s in ss_all if not sessions.has_rescaled_chunk(s)]
     ctx.count("sessions:with-rescaled-chunk(oracle only)", len(ss_all) - len(ss))
@@ -161,6 +230,12 @@ def correspond(ctx):
         ctx.case(repr(d), nontrivial=(nonempty >= 2 or any(o.startswith("err") for o in iouts)), sample={"session": d, "outcomes": iouts, "file_bytes": len(raw)})
         for o in s["ops"]:
             ctx.count("op:" + o[0] + ("" if o[0] != "P" else (":empty" if len(o[1]) == 0 else ":foreign" if not o[2] else "")))
+        if "note" in s:
+            plan = tuple(c["placement"] for c in s["note"]["chunks"])
+            ctx.count("placed:plan:" + (",".join(plan) if plan in sessions.STAT_PLANS else "(random plan)"))
+            for c in s["note"]["chunks"]:
+                if "returns" in c:
+                    ctx.count("placed:returns:" + c["returns"])
         for o in iouts:
             ctx.count("outcome:" + o)
         if mo != expect:
@@ -221,6 +296,25 @@ def correspond(ctx):
     return dis
 
 
+def header_diff(a, b):
+    """which statistics of the two headers differ (positions of the public header block: LAS 1.1-1.4)"""
+    if a is None or b is None or len(a) < 227 or len(b) < 227:
+        return ""
+    import struct
+    out = []
+
+    def f(raw, off, fmt):
+        return struct.unpack_from("<" + fmt, raw, off)
+    for name, off, fmt in (("legacy point count", 107, "I"), ("legacy points by return", 111, "5I"), ("max x, min x, max y, min y, max z, min z", 179, "6d")):
+        if f(a, off, fmt) != f(b, off, fmt):
+            out.append(f"{name}: {f(a, off, fmt)} vs {f(b, off, fmt)}")
+    if a[25] >= 4 and b[25] >= 4 and len(a) >= 375 and len(b) >= 375:
+        for name, off, fmt in (("point count", 247, "Q"), ("points by return", 255, "15Q")):
+            if f(a, off, fmt) != f(b, off, fmt):
+                out.append(f"{name}: {f(a, off, fmt)} vs {f(b, off, fmt)}")
+    return ("; header fields: " + "; ".join(out)) if out else ""
+
+
 def search(ctx, seeds):
     failing, seen = [], set()
 
@@ -228,7 +322,7 @@ def search(ctx, seeds):
         if kind not in seen:
             seen.add(kind)
             failing.append({"kind": kind, "input": inp, "observed": why})
-    for s in sessions_for(ctx):
+    for s in sessions_for(ctx) + stat_sessions_for(ctx):
         iouts, raw, unchanged, _ = s["run"]
         d = describe(s)
         if iouts and iouts[0].startswith("open-err"):
@@ -269,7 +363,39 @@ def search(ctx, seeds):
             continue
         if ref != raw:
             diff = next((i for i, (a, b) in enumerate(zip(ref, raw)) if a != b), min(len(ref), len(raw)))
-            add("chunked differs from one-shot", d, f"first differing byte at {diff} (lengths {len(raw)} vs {len(ref)})")
+            add("chunked differs from one-shot", d, f"first differing byte at {diff} (lengths {len(raw)} vs {len(ref)}){header_diff(raw, ref)}")
+        elif "note" in s and not sessions.has_rescaled_chunk(s):
+            try:
+                ref2 = one_shot_lasdata(s["header"], pts, evl)
+            except Exception as ex:
+                add("one-shot LasData.write of the accepted points failed", d, f"{type(ex).__name__}: {ex}")
+                continue
+            if ref2 != raw:
+                diff = next((i for i, (a, b) in enumerate(zip(ref2, raw)) if a != b), min(len(ref2), len(raw)))
+                add("chunked differs from one-shot (LasData.write)", d, f"first differing byte at {diff} (lengths {len(raw)} vs {len(ref2)}){header_diff(raw, ref2)}")
+    # ---- SIZE sessions: every way of cutting the same points gives the same bytes; the file says how many points it holds
+    for r in size_sessions_for(ctx):
+        d = r["desc"]
+        ctx.case(repr(d), nontrivial=True, sample=None)
+        ctx.count("size:points:" + ("2^20+k" if (1 << 20) < r["n"] < (1 << 21) else ">=2^21" if r["n"] >= (1 << 21) else "multiple-of-65536" if r["n"] % 65536 == 0 else "65536*m+-1"))
+        if d["stride_of_the_one_shot_record"] != 1:
+            ctx.count("size:strided-one-shot-record")
+        for f in r["files"]:
+            lab = f["label"]
+            if f["error"] is not None:
+                add("writing a large record failed", dict(d, route=lab), f["error"])
+                continue
+            off, w = r["count_field"]
+            b = f["head"]
+            cnt = int.from_bytes(b[off:off + w], "little")
+            data_off = int.from_bytes(b[96:100], "little")
+            if cnt != r["n"] or f["length"] != data_off + r["n"] * d["record_size"]:
+                add("point count of the file differs from the points written", dict(d, route=lab),
+                    f"{r['n']} points were written by: {lab}; the header says {cnt}, the file holds {(f['length'] - data_off) // d['record_size']} records")
+            if not f["same"]:
+                add("chunked differs from one-shot", dict(d, routes=[f["base"], lab]),
+                    f"the same {r['n']} points: [{f['base']}] and [{lab}] give files that differ first at byte {f['first_diff']} "
+                    f"(lengths {f['base_length']} vs {f['length']}){header_diff(b, f['base_head'])}")
     # ---- aliasing sessions: the property stated on the implementation, against the header AS IT WAS WHEN THE WRITER WAS OPENED
     for r in alias_sessions_for(ctx):
         d = r["desc"]
